@@ -153,6 +153,9 @@ int main(int argc, char ** argv)
       case 4: c.phi = -M_PI / 2; break;
       default: c.phi = -M_PI + 2 * M_PI * r.uniform();
       }
+      // the colatitude may be given outside [0, pi] (200 or 270 or -45 degrees: sin(theta) < 0 mirrors the azimuth); the axis is what
+      // (cos phi sin theta, sin phi sin theta, cos theta) says, for the radian and for the degree entry point alike
+      if (r.below(6) == 0) c.theta = -M_PI + 3 * M_PI * r.uniform();
       bool rectangular = r.below(3) == 0;
       if (rectangular) {
         // half-angles in (0, pi/2) with analytic acceptance >= 1e-3 (see DESIGN): ratio of tangents <= 300
